@@ -396,7 +396,22 @@ def rule6_nodrop(ctx, fl):
                 for s_ in sw:
                     to = s_.to_ctx()
                     ti = f.get(f.strip(to)) if isinstance(to, str) else None
-                    if ti is None or ti.op != 'phi' or s_.ins not in consume:
+                    if s_.ins not in consume:
+                        continue
+                    if ti is None or ti.op != 'phi':
+                        # a switch of its own for the thread: only the current-thread record is left to check
+                        direct = [st for st in f.stores_to('myth_running_env.this_thread') if c.id in f.sources(st.ops[0]) and f.dominates_f(st, s_.ins)]
+                        incb = False
+                        if s_.callback and f.mod.fn(s_.callback) is not None:
+                            cbf = f.mod.fn(s_.callback)
+                            for st in cbf.stores_to('myth_running_env.this_thread'):
+                                for k_ in cbf.sources(st.ops[0]):
+                                    pi_ = cbf.param_index(k_)
+                                    if pi_ is not None and pi_ < len(s_.cb_args) and s_.cb_args[pi_] is not None and c.id in f.sources(s_.cb_args[pi_]):
+                                        incb = True
+                        ctx.ob('C02.6', '%s: the worker\'s current-thread record follows the switch (%s via %s)' %
+                               (name, c.callee or 'steal', s_.callback or s_.kind), bool(direct) or incb,
+                               'env->this_thread names the thread being resumed: wake-ups, self and the exit path read it', loc=s_.ins.loc)
                         continue
                     okt, why = True, ''
                     for val, b_ in ti.d['incoming']:
@@ -565,6 +580,8 @@ WSQ = 'src/myth_wsqueue_func.h'
 NAT = 'src/myth_if_native.c'
 SCHED = 'src/myth_sched_func.h'
 MUTANTS = [
+    {'name': 'join callback does not record the resumed thread as current (sweep M0358)', 'expect': 'C02.6',
+     'edits': [('src/myth_sched_func.h', "  //Change current running thread\n  env->this_thread=next_thread;\n  //myth_log_add(env,MYTH_LOG_USER);\n}\n\nMYTH_CTX_CALLBACK void myth_join_3", "  //myth_log_add(env,MYTH_LOG_USER);\n}\n\nMYTH_CTX_CALLBACK void myth_join_3")]},
     {'name': 'block_on_queue goes to the scheduler when it has a thread (sweep M0193)', 'expect': 'C02.6',
      'edits': [('src/myth_sync_func.h', "  env->this_thread = next;\n  if (next) {\n    /* a runnable thread */\n    next->env = env;\n    next_ctx = &next->context;\n  } else {\n    /* no runnable thread -> scheduler */\n    next_ctx = &env->sched.context;\n  }\n  /* now save the current context, myth_sleep_queue_enq_th(q, cur)",
                 "  env->this_thread = next;\n  if (!(next)) {\n    /* a runnable thread */\n    next->env = env;\n    next_ctx = &next->context;\n  } else {\n    /* no runnable thread -> scheduler */\n    next_ctx = &env->sched.context;\n  }\n  /* now save the current context, myth_sleep_queue_enq_th(q, cur)")]},
